@@ -5,6 +5,12 @@ from specs.common import *
 from specs import fsm, event_entry
 
 
+FSM_GRID_BOUND = ('7 hand-made and 60 generated FSM definitions (<= 3 states, <= 2 events, <= 3 rules per event; any-state rules, None targets, '
+                  "'|' lists with blanks, sequences, timed states with table events and Goto): tables built by the real FSM._build_tables = an independent "
+                  'reading; every (state, event) pair sent to a fresh instance: result and next state = the rule of the statement; instance keywords '
+                  '(t_STATE incl. None/0/strings, on_enter_/on_exit_, cond_/enter_/exit_) and 11 malformed definitions/keywords refused')
+
+
 def build(run):
     fsm.verify_fsm(run, what=('c03',))
     scan_library_tables(run)
@@ -12,8 +18,10 @@ def build(run):
     run.scan('writers_of__state', w == ['edzed/fsm.py:FSM.__init__', 'edzed/fsm.py:FSM._ctx_event', 'edzed/fsm.py:FSM._restore_state'], f'{w}')
     w = scan.attr_writers('_next_event')
     run.scan('writers_of__next_event', w == ['edzed/fsm.py:FSM.__init__', 'edzed/fsm.py:FSM._ctx_event'], f'{w}')
-    run.unclaim('FSM._build_tables and FSM.__init__ keyword parsing for arbitrary FSM definitions: only reflected for the library FSMs (Timer, InputExp); '
-                'the transition contract takes well-formed tables as its precondition')
+    run.bounded_native('fsm_definitions_through_the_real_class_machinery', 'fsm_tables_grid.py', FSM_GRID_BOUND)
+    run.unclaim('FSM._build_tables and FSM.__init__ keyword parsing for arbitrary FSM definitions: not under contract (class-level code over '
+                'class attributes, string splitting); reflected for the library FSMs (Timer, InputExp: scan) and covered by the bounded stand-in '
+                'below; the transition contract takes well-formed tables as its precondition')
     run.replayer('sees_the_data_of_the_event_that_caused_it', _replay_ctx)
     run.assume('callbacks (cond/enter/exit, calc_output) are user code: they reach the FSM only through event() and sdata')
     run.assume('A-C02; FSM.calc_output is a deterministic function of state and state data')
